@@ -790,12 +790,12 @@ type socksSrv struct {
 	ln       net.Listener
 	accepted atomic.Int64
 	mu       sync.Mutex
-	opts crypto.Options
-	hash []byte
-	id   []byte
-	junk bool // answer the first attempt of the cell with a non-BitTorrent reply
-	seq  int  // attempts seen in the current cell
-	ch   chan *attempt
+	opts     crypto.Options
+	hash     []byte
+	id       []byte
+	junk     bool // answer the first attempt of the cell with a non-BitTorrent reply
+	seq      int  // attempts seen in the current cell
+	ch       chan *attempt
 }
 
 // junkReply plays a peer whose answer is not a BitTorrent handshake: to a plain
@@ -803,8 +803,11 @@ type socksSrv struct {
 // (refwire responder) and then sends 68 junk bytes.  protocol.ClientHandshake
 // reports ErrBadHandshake for both, which is what DialClient's fallback keys on.
 func (s *socksSrv) junkReply(conn net.Conn, a *attempt, hsh []byte) {
+	linger := false
 	defer func() {
-		io.Copy(io.Discard, conn) // let the dialler close first
+		if linger {
+			io.Copy(io.Discard, conn) // junk delivered: let the dialler close first
+		}
 		conn.Close()
 		s.ch <- a
 	}()
@@ -830,6 +833,7 @@ func (s *socksSrv) junkReply(conn net.Conn, a *attempt, hsh []byte) {
 			}
 		}
 		conn.Write(junk)
+		linger = true
 		return
 	}
 	a.CryptoHS = true
@@ -857,6 +861,7 @@ func (s *socksSrv) junkReply(conn net.Conn, a *attempt, hsh []byte) {
 		rsp.Select = refwire.CryptoRC4
 	}
 	conn.Write(append(rsp.Step4(), junk...))
+	linger = true
 }
 
 func (s *socksSrv) serve() {
@@ -963,6 +968,17 @@ func dialCell(c *vk.C, seen map[string]bool, s *socksSrv, a, b int, salt string,
 	co, so := optsOf(a), optsOf(b)
 	hsh := h20(fmt.Sprintf("C08 dial %s %d %d %v", salt, a, b, fallback))
 	sid := h20(fmt.Sprintf("C08 dial server id %s %d %d", salt, a, b))
+	// nothing of an earlier cell may be left in the channel
+	for drained := false; !drained; {
+		select {
+		case old := <-s.ch:
+			if old.Conn != nil {
+				old.Conn.Close()
+			}
+		default:
+			drained = true
+		}
+	}
 	s.mu.Lock()
 	s.opts, s.hash, s.id = so, hsh, sid
 	s.junk, s.seq = fallback, 0
@@ -1366,10 +1382,16 @@ func pairCase(c *vk.C, wp, rp sizePattern, total int, rng *rand.Rand) {
 	go func() {
 		defer hs.Done()
 		cc, _, ci, cerr = protocol.ClientHandshake(a, true, hash.Hash(infoHash), hash.Hash(clID), &co)
+		if cerr != nil {
+			a.Close()
+		}
 	}()
 	go func() {
 		defer hs.Done()
 		sc, _, si, serr = protocol.ServerHandshake(b, []hash.HashPair{{First: hash.Hash(infoHash), Second: hash.Hash(svID)}}, &so)
+		if serr != nil {
+			b.Close()
+		}
 	}()
 	hs.Wait()
 	defer a.Close()
@@ -1488,6 +1510,11 @@ func openRef(role string, rng *rand.Rand) (*refStream, string) {
 	o := preferOpts
 	st, done := startStorrent(fc, role, &o, true)
 	p := refHandshake(h, role, refwire.CryptoRC4, rng)
+	if !p.Done {
+		// no deadlines on the in-memory duplex: release storrent's side
+		hc.Close()
+		sc.Close()
+	}
 	<-done
 	rs.st, rs.p = st, p
 	if !st.OK || !p.Done || !st.Cipher || !p.RC4 {
